@@ -140,7 +140,10 @@ class SyncRun:
         if controlled:
             w.ck.controlled.update(self.sessions)
         self._known_uids = {}
+        # the setup's messages: already claimed by the setup session's own SELECT or not
+        self._setup_claimed = claim_recent
         self.collect('z')
+        self._setup_claimed = False
 
     # -- glass box ---------------------------------------------------------------
 
@@ -264,7 +267,7 @@ class SyncRun:
                 new = uids - self._known_uids.get(o, set())
                 if new:
                     ev = {'e': 'arrive', 'dest': current.get(o, ''), 'obj': o,
-                          'uids': sorted(new), 'by': by,
+                          'uids': sorted(new), 'by': by, 'claimed': self._setup_claimed,
                           'cids': [self.cid_of(data._messages[u]) for u in sorted(new)]}
                     self._cmd_arrivals.setdefault(by, []).append((o, data))
                     self.events.append(ev)
@@ -275,7 +278,8 @@ class SyncRun:
                 new = uids - self._known_uids.get(m, set())
                 if new:
                     self.events.append({'e': 'arrive', 'dest': m, 'obj': m,
-                                        'uids': sorted(new), 'by': by})
+                                        'uids': sorted(new), 'by': by,
+                                        'claimed': self._setup_claimed})
                 self._known_uids.setdefault(m, set()).update(uids)
         if self.log_state:
             self.state_event()
